@@ -93,14 +93,6 @@ Proof.
   - apply Z.leb_le.
 Qed.
 
-(* a value of a numeric base type is a number in lowest terms *)
-Lemma vty_int_num : forall v, vty TInt v -> exists q, v = VNum q /\ q_wf q.
-Proof. intros v [z ->]. exists (z # 1). split; [reflexivity | apply q_wf_int]. Qed.
-
-(* every int is a float (the checker lets `<` compare int with float) *)
-Lemma vty_int_float : forall v, vty TInt v -> vty TFloat v.
-Proof. intros v H. apply vty_int_num in H. exact H. Qed.
-
 (* ------------------------------------------------------------------------------------------------ *)
 (* strings                                                                                           *)
 
@@ -288,9 +280,8 @@ Proof.
   - (* nil *) simpl in *. subst. simpl. tauto.
   - (* bool *) destruct Ha as [x ->], Hb as [y ->]. simpl. rewrite eqb_true_iff.
     split; [intros ->; reflexivity | intros H; inversion H; reflexivity].
-  - (* int *) destruct Ha as [x ->], Hb as [y ->]. simpl.
-    rewrite (q_eqb_Qeq _ _ (q_wf_int x) (q_wf_int y)).
-    split; [intros H; exists (x # 1), (y # 1); auto | intros [p [q [E1 [E2 H]]]]; inversion E1; inversion E2; subst; exact H].
+  - (* int *) destruct Ha as [x ->], Hb as [y ->]. simpl. rewrite Z.eqb_eq.
+    split; [intros ->; reflexivity | intros H; inversion H; reflexivity].
   - (* float *) destruct Ha as [x [-> Wx]], Hb as [y [-> Wy]]. simpl.
     rewrite (q_eqb_Qeq _ _ Wx Wy).
     split; [intros H; exists x, y; auto | intros [p [q [E1 [E2 H]]]]; inversion E1; inversion E2; subst; exact H].
@@ -305,8 +296,8 @@ Proof.
   - (* blob *) destruct a; try contradiction. destruct b; try contradiction.
     apply (eq_struct_blob fs H); assumption.
   - (* enum *)
-    destruct a as [ | |?|?|?|?|?|?|ta pa|?|?|?]; try contradiction.
-    destruct b as [ | |?|?|?|?|?|?|tb pb|?|?|?]; try contradiction.
+    destruct a as [ | |?|?|?|?|?|?|?|ta pa|?|?|?]; try contradiction.
+    destruct b as [ | |?|?|?|?|?|?|?|tb pb|?|?|?]; try contradiction.
     simpl in Ha, Hb.
     change (rt_eq (VVariant ta pa) (VVariant tb pb)) with (String.eqb ta tb && rt_eq pa pb).
     change (seq_t (TEnum vs) (VVariant ta pa) (VVariant tb pb))
@@ -324,7 +315,7 @@ Proof.
   induction t using ty_ind'; intros a Ha.
   - reflexivity.
   - reflexivity.
-  - destruct Ha as [z ->]. exists (z # 1), (z # 1). repeat split; reflexivity.
+  - reflexivity.
   - destruct Ha as [q [-> _]]. exists q, q. repeat split; reflexivity.
   - reflexivity.
   - reflexivity.
@@ -334,10 +325,10 @@ Proof.
   - destruct a; try contradiction. simpl in *.
     induction vs as [|x xs IH]; simpl in *; [exact I|].
     destruct Ha as [Hx Hxs]. split; [apply IHt; exact Hx | apply IH; exact Hxs].
-  - destruct a as [ | |?|?|?|?|?|fa|?|?|?|?]; try contradiction. destruct Ha as [_ [_ Fa]]. simpl.
+  - destruct a as [ | |?|?|?|?|?|?|fa|?|?|?|?]; try contradiction. destruct Ha as [_ [_ Fa]]. simpl.
     induction H as [|[n t] fs Ht _ IH]; simpl in *; [exact I|].
     destruct Fa as [[x [Ex Tx]] Fa]. split; [rewrite Ex; apply Ht; exact Tx | apply IH; exact Fa].
-  - destruct a as [ | |?|?|?|?|?|?|ta pa|?|?|?]; try contradiction. simpl in *. split; [reflexivity|].
+  - destruct a as [ | |?|?|?|?|?|?|?|ta pa|?|?|?]; try contradiction. simpl in *. split; [reflexivity|].
     induction H as [|[n t] vars Ht _ IH]; simpl in *; [exact Ha|].
     destruct (String.eqb ta n); [apply Ht; exact Ha | apply IH; exact Ha].
 Qed.
@@ -346,20 +337,19 @@ Lemma seq_sym : forall t a b, seq_t t a b -> seq_t t b a.
 Proof.
   induction t using ty_ind'; intros a b Hab; try (simpl in *; congruence).
   - destruct Hab as [p [q [-> [-> E]]]]. exists q, p. repeat split; [reflexivity.. | symmetry; exact E].
-  - destruct Hab as [p [q [-> [-> E]]]]. exists q, p. repeat split; [reflexivity.. | symmetry; exact E].
   - destruct a; try contradiction. destruct b; try contradiction. simpl in *. revert vs vs0 Hab.
     induction H as [|t ts Ht _ IH]; intros [|x xs] [|y ys]; simpl; try tauto.
     intros [Hx Hxs]. split; [apply Ht; exact Hx | apply IH; exact Hxs].
   - destruct a; try contradiction. destruct b; try contradiction. simpl in *. revert vs0 Hab.
     induction vs as [|x xs IH]; intros [|y ys]; simpl; try tauto.
     intros [Hx Hxs]. split; [apply IHt; exact Hx | apply IH; exact Hxs].
-  - destruct a as [ | |?|?|?|?|?|fa|?|?|?|?]; try contradiction.
-    destruct b as [ | |?|?|?|?|?|fb|?|?|?|?]; try contradiction. simpl in *.
+  - destruct a as [ | |?|?|?|?|?|?|fa|?|?|?|?]; try contradiction.
+    destruct b as [ | |?|?|?|?|?|?|fb|?|?|?|?]; try contradiction. simpl in *.
     induction H as [|[n t] fs Ht _ IH]; simpl in *; [exact I|].
     destruct Hab as [Hx Hab]. split; [|apply IH; exact Hab].
     destruct (tbl_get n fa), (tbl_get n fb); try contradiction. apply Ht. exact Hx.
-  - destruct a as [ | |?|?|?|?|?|?|ta pa|?|?|?]; try contradiction.
-    destruct b as [ | |?|?|?|?|?|?|tb pb|?|?|?]; try contradiction. simpl in *.
+  - destruct a as [ | |?|?|?|?|?|?|?|ta pa|?|?|?]; try contradiction.
+    destruct b as [ | |?|?|?|?|?|?|?|tb pb|?|?|?]; try contradiction. simpl in *.
     destruct Hab as [-> Hab]. split; [reflexivity|].
     induction H as [|[n t] vars Ht _ IH]; simpl in *; [exact Hab|].
     destruct (String.eqb tb n); [apply Ht; exact Hab | apply IH; exact Hab].
@@ -370,8 +360,6 @@ Proof.
   induction t using ty_ind'; intros a b c Hab Hbc; try (simpl in *; congruence).
   - destruct Hab as [p [q [-> [-> E]]]]. destruct Hbc as [q' [r [E1 [-> E2]]]]. inversion E1; subst q'.
     exists p, r. repeat split; [reflexivity.. | rewrite E; exact E2].
-  - destruct Hab as [p [q [-> [-> E]]]]. destruct Hbc as [q' [r [E1 [-> E2]]]]. inversion E1; subst q'.
-    exists p, r. repeat split; [reflexivity.. | rewrite E; exact E2].
   - destruct a; try contradiction. destruct b; try contradiction. destruct c; try contradiction.
     simpl in *. revert vs vs0 vs1 Hab Hbc.
     induction H as [|t ts Ht _ IH]; intros [|x xs] [|y ys] [|z zs]; simpl; try tauto.
@@ -380,15 +368,15 @@ Proof.
     simpl in *. revert vs0 vs1 Hab Hbc.
     induction vs as [|x xs IH]; intros [|y ys] [|z zs]; simpl; try tauto.
     intros [Hx Hxs] [Hy Hys]. split; [eapply IHt; eassumption | eapply IH; eassumption].
-  - destruct a as [ | |?|?|?|?|?|fa|?|?|?|?]; try contradiction.
-    destruct b as [ | |?|?|?|?|?|fb|?|?|?|?]; try contradiction.
-    destruct c as [ | |?|?|?|?|?|fc|?|?|?|?]; try contradiction. simpl in *.
+  - destruct a as [ | |?|?|?|?|?|?|fa|?|?|?|?]; try contradiction.
+    destruct b as [ | |?|?|?|?|?|?|fb|?|?|?|?]; try contradiction.
+    destruct c as [ | |?|?|?|?|?|?|fc|?|?|?|?]; try contradiction. simpl in *.
     induction H as [|[n t] fs Ht _ IH]; simpl in *; [exact I|].
     destruct Hab as [Hx Hab]. destruct Hbc as [Hy Hbc]. split; [|apply IH; assumption].
     destruct (tbl_get n fa), (tbl_get n fb), (tbl_get n fc); try contradiction. eapply Ht; eassumption.
-  - destruct a as [ | |?|?|?|?|?|?|ta pa|?|?|?]; try contradiction.
-    destruct b as [ | |?|?|?|?|?|?|tb pb|?|?|?]; try contradiction.
-    destruct c as [ | |?|?|?|?|?|?|tc pc|?|?|?]; try contradiction. simpl in *.
+  - destruct a as [ | |?|?|?|?|?|?|?|ta pa|?|?|?]; try contradiction.
+    destruct b as [ | |?|?|?|?|?|?|?|tb pb|?|?|?]; try contradiction.
+    destruct c as [ | |?|?|?|?|?|?|?|tc pc|?|?|?]; try contradiction. simpl in *.
     destruct Hab as [-> Hab]. destruct Hbc as [-> Hbc]. split; [reflexivity|].
     induction H as [|[n t] vars Ht _ IH]; simpl in *; [exact Hab|].
     destruct (String.eqb tc n); [eapply Ht; eassumption | apply IH; assumption].
@@ -436,26 +424,32 @@ Record ord_props (t : ty) : Prop := {
   o_tot : forall a b, vty t a -> vty t b -> lt_t t a b \/ seq_t t a b \/ lt_t t b a
 }.
 
-Lemma vty_num : forall t v, t = TInt \/ t = TFloat -> vty t v -> exists q, v = VNum q /\ q_wf q.
-Proof. intros t v [-> | ->] H; [apply vty_int_num; exact H | exact H]. Qed.
-
-Lemma ord_props_num : forall t, t = TInt \/ t = TFloat -> ord_props t.
+Lemma ord_props_int : ord_props TInt.
 Proof.
-  intros t Ht.
-  assert (L : forall a b, lt_t t a b = exists p q, a = VNum p /\ b = VNum q /\ p < q)
-    by (destruct Ht as [-> | ->]; reflexivity).
-  assert (S : forall a b, seq_t t a b = exists p q, a = VNum p /\ b = VNum q /\ p == q)
-    by (destruct Ht as [-> | ->]; reflexivity).
-  constructor; intros *; rewrite ?L, ?S.
-  - intros [p [q [-> [-> H1]]]] [p' [q' [E1 [E2 H2]]]]. inversion E1; inversion E2; subst.
+  constructor; simpl.
+  - intros a b [x [y [-> [-> H]]]] E. inversion E; subst. lia.
+  - intros a b c [x [y [-> [-> H1]]]] [y' [z [E [-> H2]]]]. inversion E; subst.
+    exists x, z. repeat split. lia.
+  - intros a b c -> H. exact H.
+  - intros a b c H <-. exact H.
+  - intros a b [x ->] [y ->]. destruct (Z.lt_total x y) as [H|[H|H]].
+    + left. exists x, y. auto.
+    + right. left. congruence.
+    + right. right. exists y, x. auto.
+Qed.
+
+Lemma ord_props_float : ord_props TFloat.
+Proof.
+  constructor; simpl.
+  - intros a b [p [q [-> [-> H1]]]] [p' [q' [E1 [E2 H2]]]]. inversion E1; inversion E2; subst.
     rewrite H2 in H1. exact (Qlt_irrefl _ H1).
-  - intros [p [q [-> [-> H1]]]] [q' [r [E1 [-> H2]]]]. inversion E1; subst.
+  - intros a b c [p [q [-> [-> H1]]]] [q' [r [E1 [-> H2]]]]. inversion E1; subst.
     exists p, r. repeat split. eapply Qlt_trans; eassumption.
-  - intros [p [q [-> [-> H1]]]] [q' [r [E1 [-> H2]]]]. inversion E1; subst.
+  - intros a b c [p [q [-> [-> H1]]]] [q' [r [E1 [-> H2]]]]. inversion E1; subst.
     exists p, r. repeat split. rewrite H1. exact H2.
-  - intros [p [q [-> [-> H1]]]] [q' [r [E1 [-> H2]]]]. inversion E1; subst.
+  - intros a b c [p [q [-> [-> H1]]]] [q' [r [E1 [-> H2]]]]. inversion E1; subst.
     exists p, r. repeat split. rewrite <- H2. exact H1.
-  - intros Ha Hb. destruct (vty_num t a Ht Ha) as [p [-> _]]. destruct (vty_num t b Ht Hb) as [q [-> _]].
+  - intros a b [p [-> _]] [q [-> _]].
     destruct (Q_dec p q) as [[H|H]|H].
     + left. exists p, q. auto.
     + right. right. exists q, p. auto.
@@ -516,8 +510,8 @@ Qed.
 Theorem lt_strict_total_order : forall t, ord_ty t = true -> ord_props t.
 Proof.
   induction t using ty_ind'; simpl; try discriminate; intros Ho.
-  - apply ord_props_num. auto.
-  - apply ord_props_num. auto.
+  - apply ord_props_int.
+  - apply ord_props_float.
   - apply ord_props_str.
   - apply ord_props_tuple. rewrite forallb_forall in Ho. rewrite Forall_forall in *. auto.
 Qed.
@@ -547,8 +541,8 @@ Qed.
 Theorem lt_struct : forall t, ord_ty t = true -> lt_struct_at t.
 Proof.
   induction t using ty_ind'; simpl; try discriminate; intros Ho a b Ha Hb.
-  - destruct Ha as [x ->], Hb as [y ->]. exists (q_ltb (x # 1) (y # 1)). split; [reflexivity|].
-    rewrite q_ltb_Qlt. split; [intros L; exists (x # 1), (y # 1); auto | intros [p [q [E1 [E2 L]]]]; inversion E1; inversion E2; subst; exact L].
+  - destruct Ha as [x ->], Hb as [y ->]. exists (x <? y)%Z. split; [reflexivity|].
+    rewrite Z.ltb_lt. split; [intros L; exists x, y; auto | intros [p [q [E1 [E2 L]]]]; inversion E1; inversion E2; subst; exact L].
   - destruct Ha as [x [-> _]], Hb as [y [-> _]]. exists (q_ltb x y). split; [reflexivity|].
     rewrite q_ltb_Qlt. split; [intros L; exists x, y; auto | intros [p [q [E1 [E2 L]]]]; inversion E1; inversion E2; subst; exact L].
   - destruct Ha as [x ->], Hb as [y ->]. exists (str_ltb x y). split; [reflexivity|].
@@ -576,10 +570,10 @@ Theorem le_struct : forall t, ord_ty t = true -> forall a b, vty t a -> vty t b 
   exists c, rt_le a b = Ok c /\ (c = true <-> lt_t t a b \/ seq_t t a b).
 Proof.
   intros t Ho a b Ha Hb. destruct t; simpl in Ho; try discriminate.
-  - destruct Ha as [x ->], Hb as [y ->]. exists (q_leb (x # 1) (y # 1)). split; [reflexivity|].
-    rewrite q_leb_Qle, Qle_lteq. simpl.
-    split; [intros [L|L]; [left|right]; exists (x # 1), (y # 1); auto
-           | intros [[p [q [E1 [E2 L]]]] | [p [q [E1 [E2 L]]]]]; inversion E1; inversion E2; subst; auto].
+  - destruct Ha as [x ->], Hb as [y ->]. exists (x <=? y)%Z. split; [reflexivity|].
+    rewrite Z.leb_le. simpl.
+    split; [intros L; destruct (Z.eq_dec x y) as [->|N]; [right; reflexivity | left; exists x, y; repeat split; lia]
+           | intros [[p [q [E1 [E2 L]]]] | E]; [inversion E1; inversion E2; subst; lia | inversion E; lia]].
   - destruct Ha as [x [-> _]], Hb as [y [-> _]]. exists (q_leb x y). split; [reflexivity|].
     rewrite q_leb_Qle, Qle_lteq. simpl.
     split; [intros [L|L]; [left|right]; exists x, y; auto
@@ -679,7 +673,9 @@ Qed.
 (* ------------------------------------------------------------------------------------------------ *)
 (* arithmetic is element-wise                                                                        *)
 
-Definition qs_op (o : aop) : Q -> Q -> res Q :=
+Definition spec_fi (o : aop) : Z -> Z -> res value :=
+  match o with OpAdd => zs_add | OpSub => zs_sub | OpMul => zs_mul | OpDiv => zs_div end.
+Definition spec_ff (o : aop) : Q -> Q -> res value :=
   match o with OpAdd => qs_add | OpSub => qs_sub | OpMul => qs_mul | OpDiv => qs_div end.
 
 Lemma q_int_eta : forall q, q_is_int q = true -> q = Qnum q # 1.
@@ -714,7 +710,7 @@ Proof.
   intros [n d]. unfold q_is_zero, Qeq. simpl. rewrite Z.eqb_eq, Z.mul_1_r. reflexivity.
 Qed.
 
-Lemma num_op_spec : forall o p q, num_op o p q = qs_op o p q.
+Lemma float_op_spec : forall o p q, float_op o p q = spec_ff o p q.
 Proof.
   intros [] p q; simpl; unfold qs_add, qs_sub, qs_mul, qs_div.
   - rewrite q_add_spec. reflexivity.
@@ -723,6 +719,14 @@ Proof.
   - destruct (Qeq_dec q 0) as [Z|Z].
     + apply q_is_zero_spec in Z. rewrite Z. reflexivity.
     + destruct (q_is_zero q) eqn:E; [apply q_is_zero_spec in E; contradiction | reflexivity].
+Qed.
+
+Lemma int_op_spec : forall o x y, int_op o x y = spec_fi o x y.
+Proof.
+  intros [] x y; try reflexivity. simpl. unfold zs_div, qs_div.
+  destruct (Qeq_dec (y # 1) 0) as [Z|Z].
+  - assert (y = 0%Z) by (unfold Qeq in Z; simpl in Z; lia). subst. reflexivity.
+  - destruct (Z.eqb_spec y 0) as [->|N]; [exfalso; apply Z; reflexivity | reflexivity].
 Qed.
 
 (* the loop of the tuple metamethods against the type-directed zip of the specification *)
@@ -747,44 +751,46 @@ Proof. intros ts H. apply forallb_forall. exact H. Qed.
 
 (* + - * on numbers and on (nested) tuples of numbers; / of a tuple by a tuple *)
 Theorem arith_pointwise : forall o t, num_ty t = true -> forall a b, vty t a -> vty t b ->
-  rt_arith o a b = pw2 (qs_op o) t a b.
+  rt_arith o a b = pw2 (spec_fi o) (spec_ff o) t a b.
 Proof.
   intros o. induction t using ty_ind'; simpl; try discriminate; intros Hn a b Ha Hb.
-  - destruct Ha as [x ->], Hb as [y ->]. simpl. rewrite num_op_spec. reflexivity.
-  - destruct Ha as [x [-> _]], Hb as [y [-> _]]. simpl. rewrite num_op_spec. reflexivity.
+  - destruct Ha as [x ->], Hb as [y ->]. change (rt_arith o (VInt x) (VInt y)) with (int_op o x y).
+    apply int_op_spec.
+  - destruct Ha as [x [-> _]], Hb as [y [-> _]]. change (rt_arith o (VFloat x) (VFloat y)) with (float_op o x y).
+    apply float_op_spec.
   - destruct a; try contradiction. destruct b; try contradiction.
     change (rt_arith o (VTuple vs) (VTuple vs0)) with (rmap VTuple (zipM (rt_arith o) vs vs0)).
     f_equal. apply zipM_zipM3; try assumption.
     pose proof (num_ty_forall ts Hn) as Hn'. rewrite Forall_forall in *. auto.
 Qed.
 
-(* / of a (nested) tuple of numbers by one number *)
-Theorem div_scalar_pointwise : forall t, num_ty t = true -> forall a d, vty t a ->
-  rt_div a (VNum d) = pw_scalar qs_div t a d.
+(* / of a (nested) tuple of numbers by one number (int or float) of value dq *)
+Theorem div_scalar_pointwise : forall t, num_ty t = true -> forall a d dq, vty t a -> num_q d = Some dq ->
+  rt_div a d = pw_scalar qs_div t a dq.
 Proof.
-  unfold rt_div. induction t using ty_ind'; simpl; try discriminate; intros Hn a d Ha.
-  - destruct Ha as [x ->].
-    change (rmap VNum (num_op OpDiv (x # 1) d) = rmap VNum (qs_div (x # 1) d)).
-    rewrite (num_op_spec OpDiv). reflexivity.
-  - destruct Ha as [x [-> _]].
-    change (rmap VNum (num_op OpDiv x d) = rmap VNum (qs_div x d)).
-    rewrite (num_op_spec OpDiv). reflexivity.
+  unfold rt_div. induction t using ty_ind'; simpl; try discriminate; intros Hn a d dq Ha Hd.
+  - destruct Ha as [x ->]. destruct d; try discriminate; simpl in Hd; inversion Hd; subst.
+    + change (rt_arith OpDiv (VInt x) (VInt z)) with (int_op OpDiv x z). apply (int_op_spec OpDiv).
+    + change (rt_arith OpDiv (VInt x) (VFloat dq)) with (float_op OpDiv (x # 1) dq). apply (float_op_spec OpDiv).
+  - destruct Ha as [x [-> _]]. destruct d; try discriminate; simpl in Hd; inversion Hd; subst.
+    + change (rt_arith OpDiv (VFloat x) (VInt z)) with (float_op OpDiv x (z # 1)). apply (float_op_spec OpDiv).
+    + change (rt_arith OpDiv (VFloat x) (VFloat dq)) with (float_op OpDiv x dq). apply (float_op_spec OpDiv).
   - destruct a; try contradiction.
-    change (rt_arith OpDiv (VTuple vs) (VNum d))
-      with (rmap VTuple (rmapM (fun x => rt_arith OpDiv x (VNum d)) vs)).
-    f_equal. apply (rmapM_zipM2 _ (fun t' x => pw_scalar qs_div t' x d)); try assumption.
-    pose proof (num_ty_forall ts Hn) as Hn'. rewrite Forall_forall in *. auto.
+    assert (E : rt_arith OpDiv (VTuple vs) d = rmap VTuple (rmapM (fun x => rt_arith OpDiv x d) vs))
+      by (destruct d; try discriminate; reflexivity).
+    rewrite E. f_equal. apply (rmapM_zipM2 _ (fun t' x => pw_scalar qs_div t' x dq)); try assumption.
+    pose proof (num_ty_forall ts Hn) as Hn'. rewrite Forall_forall in *. intros t Hin a Ta. eauto.
 Qed.
 
 (* unary minus *)
-Theorem neg_pointwise : forall t, num_ty t = true -> forall a, vty t a -> rt_neg a = pw1 qs_neg t a.
+Theorem neg_pointwise : forall t, num_ty t = true -> forall a, vty t a -> rt_neg a = pw1 Z.opp Qopp t a.
 Proof.
   induction t using ty_ind'; simpl; try discriminate; intros Hn a Ha.
   - destruct Ha as [x ->]. reflexivity.
   - destruct Ha as [x [-> _]]. reflexivity.
   - destruct a; try contradiction.
     change (rt_neg (VTuple vs)) with (rmap VTuple (rmapM rt_neg vs)).
-    f_equal. apply (rmapM_zipM2 _ (pw1 qs_neg)); try assumption.
+    f_equal. apply (rmapM_zipM2 _ (pw1 Z.opp Qopp)); try assumption.
     pose proof (num_ty_forall ts Hn) as Hn'. rewrite Forall_forall in *. auto.
 Qed.
 
@@ -805,8 +811,9 @@ Theorem add_num_pointwise : forall t, num_ty t = true -> forall a b, vty t a -> 
 Proof.
   intros t Hn a b Ha Hb. rewrite (rt_add_arith t a b Hn Ha). revert Hn a b Ha Hb.
   induction t using ty_ind'; simpl; try discriminate; intros Hn a b Ha Hb.
-  - destruct Ha as [x ->], Hb as [y ->]. simpl. rewrite q_add_spec. reflexivity.
-  - destruct Ha as [x [-> _]], Hb as [y [-> _]]. simpl. rewrite q_add_spec. reflexivity.
+  - destruct Ha as [x ->], Hb as [y ->]. reflexivity.
+  - destruct Ha as [x [-> _]], Hb as [y [-> _]].
+    change (rt_arith OpAdd (VFloat x) (VFloat y)) with (Ok (VFloat (q_add x y))). rewrite q_add_spec. reflexivity.
   - destruct a; try contradiction. destruct b; try contradiction.
     change (rt_arith OpAdd (VTuple vs) (VTuple vs0)) with (rmap VTuple (zipM (rt_arith OpAdd) vs vs0)).
     f_equal. apply zipM_zipM3; try assumption.
@@ -821,9 +828,9 @@ Definition add_pointwise_statement : Prop :=
 
 Theorem add_pointwise_refuted :
   exists t a b, add_ty t = true /\ vty t a /\ vty t b /\ rt_add a b = Err /\
-                pw_add t a b = Ok (VTuple [VStr "ab"; VNum (3 # 1)]).
+                pw_add t a b = Ok (VTuple [VStr "ab"; VInt 3]).
 Proof.
-  exists (TTuple [TStr; TInt]), (VTuple [VStr "a"; VNum (1 # 1)]), (VTuple [VStr "b"; VNum (2 # 1)]).
+  exists (TTuple [TStr; TInt]), (VTuple [VStr "a"; VInt 1]), (VTuple [VStr "b"; VInt 2]).
   split; [reflexivity|]. split; [simpl; eauto|]. split; [simpl; eauto|].
   split; vm_compute; reflexivity.
 Qed.
@@ -850,18 +857,23 @@ Theorem arith_closed : forall o, o <> OpDiv -> forall t, num_ty t = true -> fora
 Proof.
   intros o Ho. induction t using ty_ind'; simpl; try discriminate; intros Hn a b Ha Hb.
   - destruct Ha as [x ->], Hb as [y ->]. destruct o; try congruence.
-    + exists (VNum ((x + y) # 1)). split; [reflexivity | exists (x + y)%Z; reflexivity].
-    + exists (VNum ((x - y) # 1)). split; [reflexivity | exists (x - y)%Z; reflexivity].
-    + exists (VNum ((x * y) # 1)). split; [reflexivity | exists (x * y)%Z; reflexivity].
+    + exists (VInt (x + y)). split; [reflexivity | eexists; reflexivity].
+    + exists (VInt (x - y)). split; [reflexivity | eexists; reflexivity].
+    + exists (VInt (x * y)). split; [reflexivity | eexists; reflexivity].
   - destruct Ha as [x [-> _]], Hb as [y [-> _]].
-    change (rt_arith o (VNum x) (VNum y)) with (rmap VNum (num_op o x y)). rewrite num_op_spec.
-    destruct o; try congruence; unfold qs_op, qs_add, qs_sub, qs_mul, rmap.
-    + exists (VNum (Qred (x + y))). split; [reflexivity|]. exists (Qred (x + y)). split; [reflexivity | apply q_wf_Qred].
-    + exists (VNum (Qred (x - y))). split; [reflexivity|]. exists (Qred (x - y)). split; [reflexivity | apply q_wf_Qred].
-    + exists (VNum (Qred (x * y))). split; [reflexivity|]. exists (Qred (x * y)). split; [reflexivity | apply q_wf_Qred].
+    change (rt_arith o (VFloat x) (VFloat y)) with (float_op o x y). rewrite float_op_spec.
+    destruct o; try congruence; unfold spec_ff, qs_add, qs_sub, qs_mul.
+    + exists (VFloat (Qred (x + y))). split; [reflexivity|]. exists (Qred (x + y)). split; [reflexivity | apply q_wf_Qred].
+    + exists (VFloat (Qred (x - y))). split; [reflexivity|]. exists (Qred (x - y)). split; [reflexivity | apply q_wf_Qred].
+    + exists (VFloat (Qred (x * y))). split; [reflexivity|]. exists (Qred (x * y)). split; [reflexivity | apply q_wf_Qred].
   - destruct a; try contradiction. destruct b; try contradiction.
     change (rt_arith o (VTuple vs) (VTuple vs0)) with (rmap VTuple (zipM (rt_arith o) vs vs0)).
     destruct (zipM_typed (rt_arith o) ts) with (xs := vs) (ys := vs0) as [rs [-> Trs]]; try assumption.
     + pose proof (num_ty_forall ts Hn) as Hn'. rewrite Forall_forall in *. auto.
     + exists (VTuple rs). split; [reflexivity | exact Trs].
 Qed.
+
+(* the checker also lets < and > compare an int with a float: by mathematical value *)
+Theorem lt_int_float : forall x q, rt_lt (VInt x) (VFloat q) = Ok (q_ltb (x # 1) q) /\
+                                   rt_lt (VFloat q) (VInt x) = Ok (q_ltb q (x # 1)).
+Proof. intros. split; reflexivity. Qed.
